@@ -109,8 +109,13 @@ package lib
 //@   requires b != nil
 //@   modifies b.$n
 //@   ensures b.$n == 0
+// String(): the ghost output sequence is the decoding of the content. Trusted reading of the model: everything written
+// is ASCII, a rune (WriteRune) or a whole UTF-8 sequence, so writes never merge into one rune; a position whose ghost
+// rune is printable (hence a valid scalar value) decodes to that rune.
 //@ lib func (b *bytes.Buffer) String() (s string)
 //@   requires b != nil
+//@   ensures[count] RuneCount(s) == b.$n
+//@   ensures[runes] forall k int {RuneAtIdx(s, k)} :: 0 <= k && k < b.$n && unicode.IsPrint(b.$out[k]) ==> RuneAtIdx(s, k) == b.$out[k]
 //@ lib func (b *bytes.Buffer) Len() (n int)
 //@   requires b != nil
 //@   ensures n >= 0
